@@ -646,6 +646,17 @@ def c09(case, F):
         if after.get("shutdown") and single:
             v.append((_sig(case, F, "returned_shut_down"), witness_text(case, F, "returned executor is flagged shut down at return")))
         prev_kw = _norm_kw(kw) if not r["same"] or prev_kw is None else prev_kw
+    # racing callers that vary only max_workers on a healthy pool all get THE singleton
+    if not single and case.get("meta", {}).get("gen") == "g_factory_mt" and not _has_deaths(F):
+        ids = {}
+        for o in ops:
+            e = o["end"]
+            if e["k"] == "ret" and e["r"].get("after"):
+                a = e["r"]["after"]
+                ids.setdefault((a.get("id"), a.get("executor_id")), 0)
+                ids[(a.get("id"), a.get("executor_id"))] += 1
+        if len(ids) > 1:
+            v.append((_sig(case, F, "singleton_violated_under_race", n=min(len(ids), 6)), witness_text(case, F, "racing get_reusable_executor calls that only vary max_workers returned %d different executor instances (executor ids %s): the others are orphaned with their workers" % (len(ids), sorted(k[1] for k in ids)))))
     # initializer / env of a fresh instance, seen by its probe task
     if single:
         last_kw = None
@@ -725,6 +736,24 @@ def c10(case, F):
         kept = old_alive & set(after.get("pids") or [])
         if len(kept) < min(len(old_alive), new):
             v.append((_sig(case, F, "survivors_restarted", finite_timeout=finite), witness_text(case, F, "resize %d -> %d kept only %d of the previous workers (%s -> %s), expected %d" % (len(old_alive), new, len(kept), sorted(old_alive), after.get("pids"), min(len(old_alive), new)))))
+    # workers kept by a resize stay: nobody asked them to leave (stale stop sentinels would make them go)
+    for o in F.ops.values():
+        c, e = o["call"], o["end"]
+        if c and c["op"] == "quiesce" and c["a"].get("after_resize") and e is not None and e["k"] == "ret" and not deaths:
+            prev = [x for x in ops if x["end"]["t"] <= c["t"]]
+            if not prev:
+                continue
+            r0 = prev[-1]["end"]
+            after = r0["r"].get("after") or {}
+            tmo = after.get("timeout")
+            snap = (e["r"].get("snaps") or {}).get("e") or {}
+            t_call = prev[-1]["call"]["t"]
+            racing_timeouts = any(m["name"] in ("timeout_branch", "memleak_branch") and t_call - 2.0 <= m["t"] <= e["t"] for ms in F.wmarks.values() for m in ms)
+            if tmo is not None and (e["t"] - r0["t"]) < 0.7 * tmo and not snap.get("snap_err") and not after.get("snap_err") and not racing_timeouts:
+                gone = sorted(set(after.get("alive") or []) - set(snap.get("alive") or []))
+                timed = [p for p in gone if F.worker_exit_path(p) in ("timeout", "memleak")]
+                if gone and not timed:
+                    v.append((_sig(case, F, "kept_workers_left_after_resize"), witness_text(case, F, "workers %s were alive when the resize returned and left %.2f s later although their idle timeout is %.1f s and nothing asked them to (exit paths: %s)" % (gone, e["t"] - r0["t"], tmo, [F.worker_exit_path(p) for p in gone]))))
     # work submitted before any resize completes with its own result
     if not deaths:
         for name, f in F.handed_out().items():
@@ -1090,6 +1119,24 @@ def c12(case, F):
             killed_times.append(e["t"])
         if c["a"]["what"] == "signal" and r.get("tracker_state") in (None, "Z"):
             v.append((_sig(case, F, "tracker_died_on_signal", sig=c["a"]["sig"]), witness_text(case, F, "the tracker (pid %s) died on %s" % (r.get("tracker_pid"), c["a"]["sig"]))))
+    # a spawn right after a tracker death: same (relaunched) tracker in parent and child, child's registration outlives the child
+    child_files = []
+    for o in tr_ops:
+        c, e = o["call"], o["end"]
+        if c["a"]["what"] != "spawn_probe" or e["k"] != "ret":
+            continue
+        r = e["r"]
+        ch = r.get("child") or {}
+        if "error" in ch or r.get("child_exitcode") != 0:
+            v.append((_sig(case, F, "child_failed_after_tracker_death"), witness_text(case, F, "a process spawned right after the tracker was killed failed: exit code %s, %s" % (r.get("child_exitcode"), ch.get("error")))))
+            continue
+        if ch.get("tracker_pid") != r.get("tracker_pid_after_spawn"):
+            v.append((_sig(case, F, "member_uses_other_tracker", after_kill=True), witness_text(case, F, "child spawned after a tracker death reports to tracker pid %s, its parent's tracker after the spawn is pid %s" % (ch.get("tracker_pid"), r.get("tracker_pid_after_spawn")))))
+        if r.get("tracker_state") in (None, "Z"):
+            v.append((_sig(case, F, "tracker_not_relaunched", by="spawn"), witness_text(case, F, "after spawning a process the parent's tracker (pid %s) is not alive" % r.get("tracker_pid_after_spawn"))))
+        if c["a"]["name"] not in (r.get("res") or []):
+            v.append((_sig(case, F, "resource_removed_while_tree_alive", by="child_exit"), witness_text(case, F, "the file registered by the child (%s) was removed as soon as the child exited, while the root is alive" % c["a"]["name"])))
+        child_files.append((c["a"]["name"], e["t"]))
     trackers = sorted((p for p in F.procs.values() if p.get("role") == "tracker"), key=lambda p: p["t"])
     # one tracker for the whole tree (relaunches only after a kill)
     # (after a tracker death every process of the tree that needs one starts its own: the single-tracker
@@ -1141,6 +1188,7 @@ def c12(case, F):
             e = o["end"]
             if e["k"] == "ret" and o["call"]["a"].get("final"):
                 miss = [nm for nm in registered if nm not in (e["r"].get("res") or []) and not any(k > 0 for k in killed_times)]
+                miss += [nm for nm, t in child_files if nm not in (e["r"].get("res") or []) and not any(k > t for k in killed_times)]
                 if miss:
                     v.append((_sig(case, F, "resource_removed_while_tree_alive"), witness_text(case, F, "registered file(s) %s disappeared while the root was still running" % miss)))
     return v
